@@ -431,3 +431,59 @@ def desugar_let_chains(body, ledger, fn):
         ledger.append("desugar let chain: `%s && %s` -> nested if" % (_norm(head)[:60], _norm(cond)[:40]))
         body = body[:st] + new + body[cb + 1:]
     raise ExtractError("%s: let-chain desugaring did not terminate" % fn)
+
+
+def desugar_or_guard(body, ledger, fn):
+    """`A | B | C if G => E` -> `A if G => E, B if G => E, C if G => E` (Verus rejects an or-pattern
+    combined with a guard). Only simple path/identifier alternatives are handled."""
+    for _ in range(50):
+        m = mask(body)
+        mm = re.search(r"(?m)^(\s*)((?:[A-Za-z_][\w:]*\s*\|\s*)+[A-Za-z_][\w:]*)\s+if\s", m)
+        if not mm:
+            return body
+        indent = mm.group(1)
+        pats = [p.strip() for p in mm.group(2).split("|")]
+        # guard ends at `=>` at depth 0
+        k, depth = mm.end(), 0
+        arrow = None
+        while k < len(m) - 1:
+            ch = m[k]
+            if ch in "([{":
+                depth += 1
+            elif ch in ")]}":
+                depth -= 1
+            elif m.startswith("=>", k) and depth == 0:
+                arrow = k
+                break
+            k += 1
+        if arrow is None:
+            raise ExtractError("%s: or-pattern arm without =>" % fn)
+        guard = body[mm.end():arrow].strip()
+        # body: block or expression up to the arm-terminating comma
+        j = arrow + 2
+        while m[j].isspace():
+            j += 1
+        if m[j] == "{":
+            end = match_brace(m, j) + 1
+            arm_body = body[j:end]
+            if end < len(m) and m[end] == ",":
+                end += 1
+        else:
+            depth, e = 0, j
+            while e < len(m):
+                ch = m[e]
+                if ch in "([{":
+                    depth += 1
+                elif ch in ")]}":
+                    if depth == 0:
+                        break
+                    depth -= 1
+                elif ch == "," and depth == 0:
+                    break
+                e += 1
+            arm_body = body[j:e]
+            end = e + 1 if e < len(m) and m[e] == "," else e
+        new = "".join("%s%s if %s => %s,\n" % (indent, p, guard, arm_body) for p in pats)
+        ledger.append("desugar or-pattern with guard: `%s if %s` -> %d arms" % (" | ".join(pats), _norm(guard)[:50], len(pats)))
+        body = body[:mm.start()] + new.rstrip("\n") + body[end:]
+    raise ExtractError("%s: or-guard desugaring did not terminate" % fn)
